@@ -234,7 +234,9 @@ func (e *c19Env) fieldValues(seed int64, f protoreflect.FieldDescriptor) []proto
 		case name == "payload":
 			known = []byte("payload")
 		}
-		vals := [][]byte{nil, {}, {1}, bytes.Repeat([]byte{7}, 31), bytes.Repeat([]byte{0xff}, 32), unknown, bytes.Repeat([]byte{7}, 33), bytes.Repeat([]byte{0xAB}, 64*1024)}
+		// 32 bytes that have the length of a key and are not the encoding of a curve point
+		notAPoint := append([]byte{2}, make([]byte, 31)...)
+		vals := [][]byte{nil, {}, {1}, bytes.Repeat([]byte{7}, 31), bytes.Repeat([]byte{0xff}, 32), notAPoint, unknown, bytes.Repeat([]byte{7}, 33), bytes.Repeat([]byte{0xAB}, 64*1024)}
 		if strings.Contains(name, "group_pk") {
 			vals = append(vals, e.accountPK)
 			if e.contactGPK != nil {
